@@ -19,7 +19,7 @@ var rec *mon.Rec
 // group is one case of the plan: a batch of seeded histories / sequences or
 // one block of an exhaustive enumeration.
 type group struct {
-	kind    string // map | atomic | slice | ring-seeded | ring-exh | buf-exh | buf-seeded
+	kind    string // map | atomic | slice | slice-args | slice-seeded | map-keys-alias | ring-seeded | ring-exh | buf-exh | buf-seeded
 	a, b, c int
 	n       int
 }
@@ -28,6 +28,12 @@ func (g group) String() string {
 	switch g.kind {
 	case "map", "atomic", "slice":
 		return fmt.Sprintf("lin %s: %d seeded histories (stream c14-lin-%s, idx*4096+h)", g.kind, g.n, g.kind)
+	case "slice-args":
+		return fmt.Sprintf("slice caller-owned arguments: all scenarios (16 flag sets x n 0..3 x spare 0..8 x 2 offsets) after %d prior appends", g.a)
+	case "slice-seeded":
+		return fmt.Sprintf("slice caller-owned arguments seeded: %d sequences over two instances sharing one caller buffer (stream c14-slice-alias, idx*4096+sub)", g.n)
+	case "map-keys-alias":
+		return "cmap.Map: the caller overwrites / appends to the slice returned by Keys(), sizes 0..3"
 	case "ring-seeded":
 		return fmt.Sprintf("ring seeded: %d sequences (stream c14-ring, idx*4096+sub)", g.n)
 	case "ring-exh":
@@ -56,6 +62,12 @@ func plan() []group {
 	add("map", mon.Pick(320, 2000), per)
 	add("atomic", mon.Pick(320, 2000), per)
 	add("slice", mon.Pick(160, 1000), per)
+	// caller-owned arguments and results (sequential, deterministic + seeded)
+	for prior := 0; prior <= 2; prior++ {
+		gs = append(gs, group{kind: "slice-args", a: prior})
+	}
+	add("slice-seeded", mon.Pick(40, 1000), 100)
+	add("map-keys-alias", 1, 0)
 	// ring vs container/ring
 	add("ring-seeded", mon.Pick(400, 10000), mon.Pick(50, 100))
 	ringExhLen = mon.Pick(5, 6)
@@ -102,7 +114,8 @@ func TestCheck(t *testing.T) {
 	}
 	rec.Count("selftest.models_ok", 1)
 	gs := plan()
-	rec.Note("rule", "Linearizability (cmap.Map, cmap.Atomic, slice): a case is one seeded concurrent program (0-3 op sequential prefix, then 2-4 goroutines x 1-5 ops over 1-3 keys, unique written values, start barrier, optional per-round barriers, seeded Gosched perturbation) run against the real structure; the recorded call/return history is checked by porcupine against an un-partitioned sequential model (Map: Go map incl. Len/Keys/Range/Clear; Atomic: key->object identity + per-object integer, GetOrCreate must return the current object or a fresh one; slice: append-only sequence). Non-trivial = at least two operations of different goroutines really overlapped in the recorded history; distinct = distinct program text. "+
+	rec.Note("rule", "Linearizability (cmap.Map, cmap.Atomic, slice): a case is one seeded concurrent program (0-3 op sequential prefix, then 2-4 goroutines x 1-5 ops over 1-3 keys, unique written values, start barrier, optional per-round barriers, seeded Gosched perturbation) run against the real structure; the recorded call/return history is checked by porcupine against an un-partitioned sequential model (Map: Go map incl. Len/Keys/Range/Clear; Atomic: key->object identity + per-object integer, GetOrCreate must return the current object or a fresh one; slice: append-only sequence with copy semantics - every Append argument is a caller-owned window of a re-used buffer with 0-8 elements of spare capacity that the caller overwrites / appends to / hands to a second instance right after the call). Every history ends with sequential observers (Range+Len, ForEach, Slice+Len). Non-trivial = at least two operations of different goroutines really overlapped in the recorded history; distinct = distinct program text. "+
+		"Aliasing (sequential): every scenario of {0-2 prior appends} x {argument window n 0..3, spare capacity 0..8, offset 0/2} x {shared with a second Slice instance, overwritten by the caller, appended to by the caller, buffer re-used for the next call}, Len and Slice of both instances compared with plain slices after every step; seeded sequences of the same actions over two instances; the caller appending to the result of Slice(); the caller overwriting / appending to the result of Map.Keys(). A caller overwriting an element of the result of Slice() is observed, not judged. "+
 		"ring.Ring: seeded sequences of 1-60 steps (New 0..5, zero element, Next, Prev, Move(+-n), Link, Unlink, Len, Do) applied to ring.Ring and container/ring side by side, after every step the link structure (raw next/prev of every element ever created), values and returned element must correspond; plus every sequence of the stated length over a 13-symbol two-handle alphabet from each initial (New(a),New(b)), a,b in 0..3, with Len and Do on both handles after every step. Non-trivial = at least one Link/Unlink executed. "+
 		"ring.Buffered: every valid AppendBack/RemoveFront sequence of the stated length for each (initial, buffer) in 0..5 x 0..5 with Len, Front, Range and early-stopping Range compared with a slice queue after every step; plus seeded sequences of 1-60 steps with grow/drain phases and a final drain. RemoveFront is only issued on a non-empty queue. Non-trivial = at least one RemoveFront.")
 	rec.Note("require", []string{
@@ -111,6 +124,8 @@ func TestCheck(t *testing.T) {
 		"ring.seeded.link_same_ring", "ring.seeded.link_other_ring", "ring.seeded.unlink_calls", "ring.seeded.lazy_init_receivers",
 		"ring.exhaustive.link_same_ring", "ring.exhaustive.link_other_ring", "ring.exhaustive.unlink_calls",
 		"buffered.exhaustive.grow_events", "buffered.exhaustive.shrink_events", "buffered.seeded.grow_events", "buffered.seeded.shrink_events", "buffered.seeded.range_stopped_early",
+		"lin.slice.op.Append.arg_overwritten_after_call", "lin.slice.op.Append.arg_appended_to_by_caller", "lin.slice.op.Append.arg_shared_with_second_instance",
+		"alias.slice.scenarios", "alias.slice.seeded_sequences", "alias.map.keys_checks",
 		"selftest.models_ok"})
 	rec.Note("exhaustive", fmt.Sprintf("ring: all %d^%d sequences over the reduced alphabet from each of the %d initial states (New(a),New(b)), a,b in 0..%d; buffered: all valid AppendBack/RemoveFront sequences of length %d for the 36 size pairs. The linearizability part is sampled, not exhaustive.", len(ringAlphabet), ringExhLen, (ringExhInit+1)*(ringExhInit+1), ringExhInit, bufExhLen))
 	rec.Note("gomaxprocs", runtime.GOMAXPROCS(0))
@@ -130,6 +145,12 @@ func TestCheck(t *testing.T) {
 		switch g.kind {
 		case "map", "atomic", "slice":
 			runLinGroup(idx, g)
+		case "slice-args":
+			runSliceArgs(idx, g)
+		case "slice-seeded":
+			runSliceSeeded(idx, g)
+		case "map-keys-alias":
+			runMapKeysAlias(idx, g)
 		case "ring-seeded":
 			runRingSeeded(idx, g)
 		case "ring-exh":
